@@ -299,6 +299,11 @@ class ColFolder(Folder):
             return v
         return super().c_np_array(a, kw)
 
+    def c_np_arange(self, a, kw):
+        if all(isinstance(x, int) and not isinstance(x, bool) for x in a) and 1 <= len(a) <= 3:
+            return list(range(*a))
+        raise Refuse("np.arange of non-constants")
+
     def c_np_empty_like(self, a, kw):
         if isinstance(a[0], Cols):
             return Cols([None] * len(a[0].cols))
@@ -502,7 +507,7 @@ def rule_b(ctx):
         vs_got = me.fields.get("voxel_size")
         want_vs = {a: Poly.atom(f"hm{T_i[(a, 'ijk'[:d])][1][0]}") for a in axes}
         ctx.ob(R, init.qname, f"dim {d}: voxel_size[axis] = img.voxel_size[pos(axis)] for every Cartesian axis (pos from the axis table)", isinstance(vs_got, dict) and vs_got == want_vs,
-               f"constructor leaves voxel_size = {vs_got!r}; the table prescribes {want_vs!r}", init.node)
+               f"constructor leaves voxel_size = {vs_got!r}; the table prescribes {want_vs!r}" if isinstance(vs_got, dict) else "", init.node, evidence=isinstance(vs_got, dict))
         ctx.ob(R, init.qname, f"dim {d}: self._coordinate_of_origin_voxel is the image's origin", me.fields.get("_coordinate_of_origin_voxel") is origin, repr(me.fields.get("_coordinate_of_origin_voxel")), init.node)
         ctx.ob(R, init.qname, f"dim {d}: self.indexing / dim / axes are the image's indexing, space_dim and 'xyz'[:dim]",
                (me.fields.get("indexing"), me.fields.get("dim"), me.fields.get("axes")) == ("ijk"[:d], d, axes), repr((me.fields.get("indexing"), me.fields.get("dim"), me.fields.get("axes"))), init.node)
